@@ -6,7 +6,11 @@ from vlib.coqfmt import cZ, cnat, cbool, clist
 
 ENV_BY_TIER = {"quick": {"NUMBA_DISABLE_JIT": "1"}, "thorough": {}}
 
-RULE = ("integer-coordinate tree sequences: msprime (Kingman/Beta/Dirac, historical and internal samples) "
+RULE = ("large fan-out family: polytomy nodes with exactly k children, k in {127,128,129,255,256,257,258,511,512,513} "
+        "(6 sizes per quick run, all in thorough, plus 3 of {32767,32768,32769,65535,65536,65537} in thorough), single-tree "
+        "and two-tree forms (a child moves between two polytomy parents at a breakpoint), with and without a genuine "
+        "unary node; the Coq model is evaluated up to k = 130, the Tree-API oracle covers every size. Then "
+        "integer-coordinate tree sequences: msprime (Kingman/Beta/Dirac, historical and internal samples) "
         "passed through structural mutators (cut a sub-interval out of one edge, delete an interval, "
         "isolate a sample over an interval, simplify to a sample subset with keep_unary) and msprime-free "
         "random DAG tables (each node picks a parent per interval; tied node times in 30%); ~40% of all inputs "
@@ -331,7 +335,95 @@ def run(ctx, model_ok=True):
             ctx.corr("reference semantics (brute force in Coq) vs Tree API",
                      r_none == t_none and r_skip == t_skip and m_d0 == t_none and m_d1 is False, "", rp)
             ctx.tally("coq_bruteforce_reference")
+    run_fanout(ctx, model_ok)
     run_e2e(ctx, ctx.n(5, 40))
+
+
+FANOUT_QUICK = [127, 128, 129, 255, 256, 257, 258, 511, 512, 513]
+FANOUT_THOROUGH = [32767, 32768, 32769, 65535, 65536, 65537]
+FANOUT_MODEL_MAX = 130        # the Coq model is evaluated up to this fan-out (stays under ~20 s); the
+                              # Tree-API oracle covers every size
+
+
+def fanout_ts(k, two_trees, with_unary):
+    """large fan-out: a polytomy node with exactly k children in some local tree (child counts at and
+    around the powers of two that integer widths care about).  single tree: p1 has k sample children;
+    two trees (a real breakpoint at 6): p1 has k children and p2 has 3 on [0, 6), then one child moves
+    from p1 to p2 (k-1 and 4 children) on [6, 10).  with_unary: a genuinely unary non-sample node between
+    p1 and the root."""
+    import tskit
+    t = tskit.TableCollection(10)
+    nleaf = k + (3 if two_trees else 0)
+    for _ in range(nleaf):
+        t.nodes.add_row(flags=tskit.NODE_IS_SAMPLE, time=0)
+    p1 = t.nodes.add_row(flags=0, time=1)
+    p2 = t.nodes.add_row(flags=0, time=1.5) if two_trees else None
+    u = t.nodes.add_row(flags=0, time=2) if with_unary else None
+    root = t.nodes.add_row(flags=0, time=3) if (two_trees or with_unary) else None
+    for c in range(k):
+        if two_trees and c == 0:
+            t.edges.add_row(0, 6, p1, c)
+            t.edges.add_row(6, 10, p2, c)
+        else:
+            t.edges.add_row(0, 10, p1, c)
+    if two_trees:
+        for c in range(k, k + 3):
+            t.edges.add_row(0, 10, p2, c)
+        t.edges.add_row(0, 10, root, p2)
+    if with_unary:
+        t.edges.add_row(0, 10, u, p1)
+        t.edges.add_row(0, 10, root, u)
+    elif two_trees:
+        t.edges.add_row(0, 10, root, p1)
+    t.sort()
+    t.build_index()
+    return t.tree_sequence()
+
+
+def run_fanout(ctx, model_ok):
+    sizes = ctx.rng.sample(FANOUT_QUICK, 4) + [257, 513]
+    if ctx.tier != "quick":
+        sizes = FANOUT_QUICK + ctx.rng.sample(FANOUT_THOROUGH, 3)
+    items = []
+    for k in sizes:
+        forms = [(False, False), (True, False)] if k > 1000 else \
+            [(False, False), (True, False), (ctx.rng.random() < 0.5, True)]
+        for two, un in forms:
+            ts = fanout_ts(k, two, un)
+            kind = "fanout:%d%s%s" % (k, "/two-trees" if two else "/one-tree", "/unary" if un else "")
+            items.append((ts, [False] * ts.num_nodes, kind, k))
+    small_items = [(ts, rmask, False) for ts, rmask, kind, k in items if k <= FANOUT_MODEL_MAX]
+    for k in (127, 129):          # always some sizes the model is evaluated on
+        if not any(kk == k for _t, _r, _k, kk in items):
+            ts = fanout_ts(k, True, False)
+            items.append((ts, [False] * ts.num_nodes, "fanout:%d/two-trees" % k, k))
+            small_items.append((ts, [False] * ts.num_nodes, False))
+    models = {}
+    if model_ok and small_items:
+        for (ts, _r, _s), m in zip(small_items, run_model(ctx, small_items)):
+            models[id(ts)] = m
+    for ts, rmask, kind, k in items:
+        try:
+            impl = impl_all(ts, rmask)
+        except S.ImplTimeout as e:
+            ctx.oracle_fail("timeout", str(e), {"kind": kind})
+            return
+        t_skip, t_none = oracle(ctx, ts, rmask, kind, impl)
+        ctx.case({"kind": kind, "summary": S.summary(ts), "unary_nonsample": t_skip, "unary_any": t_none},
+                 kind="fanout" + ("/unary" if t_none else "/clean"))
+        if k <= 600:
+            spans_oracle(ctx, ts, kind, t_none)
+        m = models.get(id(ts))
+        if m is None:
+            continue
+        (valid, m_skip, m_noskip, m_r, m_prior, m_vg0, m_vg1, m_d0, m_d1, m_ref) = m
+        rp = {"kind": kind, "impl": impl, "model": repr(m)}
+        if not valid:
+            ctx.tie_fail("correspondence", "valid_tablesb", "fan-out input violates the validity hypotheses", rp)
+        ctx.corr("fanout: contains_unary_nodes", opt(m_skip) == impl["skip"] and opt(m_noskip) == impl["noskip"]
+                 and opt(m_r) == impl["rmask"], "", rp)
+        ctx.corr("fanout: has_locally_unary_nodes", m_prior == impl["prior"], "", rp)
+        ctx.corr("fanout: _check_valid_inputs", opt(m_vg0) == impl["vg_reject_0"] and opt(m_vg1) == impl["vg_reject_1"], "", rp)
 
 
 def search(ctx):
